@@ -267,3 +267,11 @@ package node
 //@   modifies *
 //@   modifies $mayWrite, $initEvent, $vSender, $vData, $vSig, $vRound, $fx, $sends, $lastSent, $stored, $pend, $retired, $handledNext, $bufc, $dos, $savedAtDo
 //@   assert@call SaveOffset[C13.offset] arg0 == message.Offset + 1 && ($handledNext == arg0 || !(message.RecipientAddr == "" || message.RecipientAddr == s.userName))
+
+// reconstruction works on the same common expansion and hands each message's payload to the BLS library unchanged (C03)
+//@ func reconstructThresholdSignature behavior c03
+//@   nosafety
+//@   requires signingFSM != nil
+//@   modifies *
+//@   assert@call TasksToMessages[C03.reconstruct.expansion] msgs == loc(signingTasks)
+//@   assert@call recoverFullSign[C03.reconstruct.payload] msg == loc(messages)[loc(messageID)].Payload && sigShares == loc(messagePartialSignatures)
